@@ -109,7 +109,7 @@ impl Module for M {
                 emit(format!("ellipse.points {} {} {} {}", x, y, w, h));
             }
         }
-        if pid == "C06" {
+        if pid == "C06" || pid == "C01" {
             let cols: [(&str, &str); 4] = [("7", "-"), ("-", "9"), ("7", "9"), ("-", "-")];
             let boxes: [(i32, i32, u32, u32); 3] = [UNB, (2, 1, 5, 4), (0, 0, 0, 0)];
             let smax: u32 = if quick { 7 } else { 10 };
